@@ -202,6 +202,33 @@ func c11Receivers(quick bool) []c11Recv {
 			return s
 		}})
 	}
+	// deep structures: stacks nested 6 and 18 levels (a Condition as every fourth link), two leaves at the bottom
+	for _, d := range []int{6, 18} {
+		for mode := 0; mode < 4; mode++ {
+			d, mode := d, mode
+			out = append(out, c11Recv{fmt.Sprintf("deep/%d/mode%d", d, mode), func() any {
+				var cur any = stackage.List().Push("b0", "b1")
+				for lvl := d - 1; lvl >= 1; lvl-- {
+					st := newStackKind(kindNames[lvl%5]).Push(cur, fmt.Sprintf("side%d", lvl))
+					if mode&1 != 0 && lvl%2 == 0 {
+						st.SetMutex()
+					}
+					cur = st
+					if lvl%4 == 3 {
+						cur = stackage.Cond(fmt.Sprintf("c%d", lvl), stackage.Eq, st)
+					}
+				}
+				s := stackage.And().Push(cur, "top")
+				if mode&1 != 0 {
+					s.SetMutex()
+				}
+				if mode&2 != 0 {
+					s.SetReadOnly(true)
+				}
+				return s
+			}})
+		}
+	}
 	// closures that are scheduling points (see schedUserPoint): under the controlled scheduler other
 	// threads run while one caller is inside user code in the middle of a query
 	for _, k := range []string{"AND", "LIST"} {
@@ -645,6 +672,14 @@ func c11Residue(c *Ctx, recvs []c11Recv) {
 					}
 				}
 				st.SetFold()
+			}
+			if depth >= 3 {
+				// ... and, far enough down, every nested Stack is taken out and another one put in its place
+				for i, e := range contents(st) {
+					if _, isStack := e.(stackage.Stack); isStack {
+						st.Replace(stackage.Or().Push(fmt.Sprintf("replacement%d", i), "r1"), i)
+					}
+				}
 			}
 			for _, e := range contents(st) {
 				mutate(e, depth+1)
